@@ -38,6 +38,8 @@ type e2ePlan struct {
 	DstErr bool `json:"dsterr,omitempty"`
 	// Shrink: the first source file is truncated to half once message G (global index) was written
 	Shrink *e2eSil `json:"shrink,omitempty"`
+	// Mutate: the payload of message G is replaced in flight (adversarial peer)
+	Mutate *e2eMut `json:"mutate,omitempty"`
 	// CheckLeft: after both roles returned wait timeout+1s and count transfer goroutines still alive
 	CheckLeft bool `json:"checkleft,omitempty"`
 }
@@ -54,6 +56,13 @@ type e2ePause struct {
 	Phase    string `json:"phase"`
 	ResumeMs int    `json:"resume_ms"`
 	Cycles   int    `json:"cycles"`
+}
+
+type e2eMut struct {
+	G     int    `json:"g"`
+	New   string `json:"new"`
+	Type  string `json:"type,omitempty"`
+	Label string `json:"label"`
 }
 
 type e2eSil struct {
@@ -132,6 +141,9 @@ func e2eExec(c *e2eCase, work string, tr *vTrace, logLines bool) (*e2eResult, ma
 			}
 		}
 	}
+	if c.Plan.Mutate != nil {
+		w.mutG, w.mutNew, w.mutType = c.Plan.Mutate.G, c.Plan.Mutate.New, c.Plan.Mutate.Type
+	}
 	if c.Plan.DstErr && len(tops) > 0 {
 		_ = os.Symlink("/dev/full", filepath.Join(dst, filepath.Base(tops[0])))
 		pre = e2eSnapshot(dst)
@@ -152,7 +164,7 @@ func e2eExec(c *e2eCase, work string, tr *vTrace, logLines bool) (*e2eResult, ma
 	reset := map[string]any{"e": "reset", "run": c.ID, "upload": o.Upload, "proto": proto, "binary": o.Binary,
 		"overwrite": o.Overwrite, "directory": o.Directory, "windows": o.Windows,
 		"nfaults": len(c.Plan.Faults), "stop": "none", "stopdel": false, "pause": c.Plan.Pause != nil,
-		"silence": c.Plan.Silence != nil || c.Plan.WriteErr != nil || c.Plan.DstErr || c.Plan.Shrink != nil, "timeout": o.Timeout,
+		"silence": c.Plan.Silence != nil || c.Plan.WriteErr != nil || c.Plan.DstErr || c.Plan.Shrink != nil || c.Plan.Mutate != nil, "timeout": o.Timeout,
 		"fkind": e2ePlanKind(&c.Plan), "prehs": e2ePreHandshake(&c.Plan)}
 	{
 		fl := []map[string]any{}
@@ -265,7 +277,13 @@ func e2eExec(c *e2eCase, work string, tr *vTrace, logLines bool) (*e2eResult, ma
 		}
 	}
 	tr.Emit(reset, nil)
+	tr.Flush()
+	runStart := time.Now()
+	vm0 := e2eVmPeakMB()
 	res := e2eRun(o, w, hooks)
+	if c.Plan.Mutate != nil && stopAt.IsZero() {
+		stopAt = runStart
+	}
 	if e2eProbeSink != nil {
 		e2eProbeSink(w)
 	}
@@ -291,6 +309,10 @@ func e2eExec(c *e2eCase, work string, tr *vTrace, logLines bool) (*e2eResult, ma
 	if c.Plan.DstErr && stopAt.IsZero() {
 		stopAt = time.Now()
 	}
+	mutApplied := false
+	w.mu.Lock()
+	mutApplied = w.mutApplied
+	w.mu.Unlock()
 	// observable projection
 	names := res.Shown
 	if c.NamesFromTops {
@@ -401,11 +423,13 @@ func e2eExec(c *e2eCase, work string, tr *vTrace, logLines bool) (*e2eResult, ma
 	fs := map[string]any{"e": "fs", "run": c.ID, "n": len(entries), "nsame": nsame, "allsame": allSame && len(entries) > 0,
 		"extra": len(extra), "touched": len(touched), "shown": res.ShownOK, "nshown": len(names), "ntops": len(tops),
 		"npresent": npresent, "keptok": keptok, "verified": verified,
+		"mutapplied": mutApplied, "vmgrow": e2eVmPeakMB() - vm0,
 		"pdata": pData, "pkeep": pKeep, "dataafter": dataAfter, "pausems": e2ePauseMs(&c.Plan)}
 	tr.Emit(fs, nil)
 	if c.Plan.CheckLeft {
 		tr.Emit(map[string]any{"e": "left", "run": c.ID, "n": left}, nil)
 	}
+	tr.Flush()
 	detail := map[string]any{"left_frames": leftFrames, "entries": entries, "extra": extra, "touched": touched, "shown": names,
 		"client_err": res.ClientErr, "server_err": res.ServerErr, "hung": res.Hung}
 	return res, detail, nil
@@ -520,6 +544,8 @@ func e2ePlanKind(p *e2ePlan) string {
 		return "dsterr"
 	case p.Shrink != nil:
 		return "shrink"
+	case p.Mutate != nil:
+		return "mutate"
 	case p.Stop != nil:
 		return "stop"
 	case p.Pause != nil:
@@ -539,6 +565,9 @@ func e2ePreHandshake(p *e2ePlan) bool {
 	if p.WriteErr != nil && p.WriteErr.Dir == "s2c" && p.WriteErr.K < 0 {
 		return true
 	}
+	if p.Mutate != nil && p.Mutate.G <= 1 { // ACT or CFG
+		return true
+	}
 	return false
 }
 
@@ -549,6 +578,7 @@ type e2eLayoutMsg struct {
 	Typ string `json:"t"`
 	Off int    `json:"off"`
 	Len int    `json:"len"`
+	Raw string `json:"raw"` // payload text (for a binary DATA block: its length)
 }
 
 // e2eLayouts gives every shard the same message layout of the base cases: the parent process
@@ -591,7 +621,11 @@ func e2eLayouts(d *vCtx, bases []*e2eCase) ([][]e2eLayoutMsg, error) {
 		}
 		var l []e2eLayoutMsg
 		for _, m := range w {
-			l = append(l, e2eLayoutMsg{m.Dir, m.K, m.G, m.Typ, m.Off, m.Len})
+			raw := string(m.Raw)
+			if m.Typ == "DATA" && c.Opts.Binary && !m.Keep {
+				raw = fmt.Sprint(len(m.Raw))
+			}
+			l = append(l, e2eLayoutMsg{m.Dir, m.K, m.G, m.Typ, m.Off, m.Len, raw})
 		}
 		res = append(res, l)
 	}
@@ -604,4 +638,23 @@ func e2ePauseMs(p *e2ePlan) int {
 		return 0
 	}
 	return p.Pause.ResumeMs
+}
+
+// e2eVmPeakMB: peak virtual memory size of this process in MiB (from /proc/self/status).
+func e2eVmPeakMB() int {
+	b, err := os.ReadFile("/proc/self/status")
+	if err != nil {
+		return 0
+	}
+	for _, l := range strings.Split(string(b), "\n") {
+		if strings.HasPrefix(l, "VmPeak:") {
+			f := strings.Fields(l)
+			if len(f) >= 2 {
+				var kb int
+				fmt.Sscan(f[1], &kb)
+				return kb / 1024
+			}
+		}
+	}
+	return 0
 }
